@@ -10,7 +10,75 @@ import (
 
 type GCSConfig struct {
 	Progs [][]string `json:"programs"`
+	// Big: the shared filter has 1100 elements (P=19, M=784931) and is rebuilt from its serialised
+	// bytes for every execution; statements without a shared access are not scheduling points
+	// (verifrt.SkipLocal), which keeps the thousands of local decoding steps out of the schedule space
+	Big bool `json:"big_filter,omitempty"`
 }
+
+// big-filter alphabet: members, a non-member, a query long enough to take MatchAny's hashing strategy
+var GCSBigOps = []string{"Match:m0", "Match:mLast", "Match:z", "HashMatchAny:m", "HashMatchAny:miss", "ZipMatchAny:m", "MatchAny:m", "MatchAny:long"}
+
+var (
+	gcsBigItems = func() [][]byte {
+		var out [][]byte
+		for i := 0; i < 1100; i++ {
+			out = append(out, []byte(fmt.Sprintf("member-%d", i)))
+		}
+		return out
+	}()
+	gcsBigLong = func() [][]byte { // 600 non-members followed by one member: longer than N/2
+		var out [][]byte
+		for i := 0; i < 600; i++ {
+			out = append(out, []byte(fmt.Sprintf("other-%d", i)))
+		}
+		return append(out, []byte("member-777"))
+	}()
+	gcsBigBytes []byte
+)
+
+func gcsBigFilter() *gcs.Filter {
+	if gcsBigBytes == nil {
+		f, err := gcs.BuildGCSFilter(19, 784931, gcsKey, gcsBigItems)
+		if err != nil {
+			panic(err)
+		}
+		gcsBigBytes, _ = f.NBytes()
+	}
+	f, err := gcs.FromNBytes(19, 784931, append([]byte{}, gcsBigBytes...))
+	if err != nil {
+		panic(err)
+	}
+	return f
+}
+
+func gcsBigDo(f *gcs.Filter, op string) string {
+	var r bool
+	var err error
+	switch op {
+	case "Match:m0":
+		r, err = f.Match(gcsKey, []byte("member-0"))
+	case "Match:mLast":
+		r, err = f.Match(gcsKey, []byte("member-1099"))
+	case "Match:z":
+		r, err = f.Match(gcsKey, []byte("zzz"))
+	case "HashMatchAny:m":
+		r, err = f.HashMatchAny(gcsKey, [][]byte{[]byte("member-5")})
+	case "HashMatchAny:miss":
+		r, err = f.HashMatchAny(gcsKey, [][]byte{[]byte("n1"), []byte("n2")})
+	case "ZipMatchAny:m":
+		r, err = f.ZipMatchAny(gcsKey, [][]byte{[]byte("n1"), []byte("member-600")})
+	case "MatchAny:m":
+		r, err = f.MatchAny(gcsKey, [][]byte{[]byte("member-3")})
+	case "MatchAny:long":
+		r, err = f.MatchAny(gcsKey, gcsBigLong)
+	default:
+		panic("unknown op " + op)
+	}
+	return fmt.Sprint(r, err)
+}
+
+var gcsBigWant = map[string]string{}
 
 var GCSOps = []string{"Match:a", "Match:z", "MatchAny", "ZipMatchAny", "ZipMatchAny:miss", "MatchAny:miss1", "HashMatchAny", "HashMatchAny:miss", "Bytes", "NBytes", "NPBytes", "N", "P"}
 
@@ -68,29 +136,46 @@ func gcsDo(f *gcs.Filter, op string) string {
 
 // RunGCS executes one schedule: every thread queries one shared immutable filter.
 func RunGCS(cfg GCSConfig, choose func(step int, enabled []int, runningEnabled bool) int) *Outcome {
-	f, err := gcs.BuildGCSFilter(2, 5, gcsKey, gcsItems)
-	if err != nil {
-		panic(err)
+	var f *gcs.Filter
+	do := gcsDo
+	want := map[string]string{}
+	if cfg.Big {
+		f = gcsBigFilter()
+		do = gcsBigDo
+		// sequential expectation of each operation: on a fresh filter of its own (computed once)
+		if len(gcsBigWant) == 0 {
+			for _, op := range GCSBigOps {
+				gcsBigWant[op] = gcsBigDo(gcsBigFilter(), op)
+			}
+		}
+		want = gcsBigWant
+		verifrt.SkipLocal = true
+		defer func() { verifrt.SkipLocal = false }()
+	} else {
+		var err error
+		f, err = gcs.BuildGCSFilter(2, 5, gcsKey, gcsItems)
+		if err != nil {
+			panic(err)
+		}
+		// sequential expectations (scheduler inactive), computed on a separate, identically built
+		// filter so that the shared one is untouched when the threads start
+		seq, _ := gcs.BuildGCSFilter(2, 5, gcsKey, gcsItems)
+		for _, op := range GCSOps {
+			want[op] = gcsDo(seq, op)
+		}
 	}
 	before, _ := f.NPBytes()
-	// sequential expectations (scheduler inactive), computed on a separate, identically built
-	// filter so that the shared one is untouched when the threads start
-	seq, _ := gcs.BuildGCSFilter(2, 5, gcsKey, gcsItems)
-	want := map[string]string{}
-	for _, op := range GCSOps {
-		want[op] = gcsDo(seq, op)
-	}
 	results := make([][]string, len(cfg.Progs))
 	bodies := make([]func(), len(cfg.Progs))
 	for ti, prog := range cfg.Progs {
 		ti, prog := ti, prog
 		bodies[ti] = func() {
 			for _, op := range prog {
-				results[ti] = append(results[ti], gcsDo(f, op))
+				results[ti] = append(results[ti], do(f, op))
 			}
 		}
 	}
-	e := verifrt.Run(bodies, 20000, choose)
+	e := verifrt.Run(bodies, 200000, choose)
 	o := &Outcome{Exec: e}
 	var sb strings.Builder
 	for ti, r := range results {
@@ -103,10 +188,11 @@ func RunGCS(cfg GCSConfig, choose func(step int, enabled []int, runningEnabled b
 			return o
 		}
 	}
+	// A write announced by a query is NOT reported by itself: a correctly synchronised cache inside the
+	// filter is compatible with the statement.  Unsynchronised writes show up as data races below,
+	// wrong answers as result differences, and a changed serialisation at the end.
 	if len(e.Writes) > 0 {
-		w := e.Writes[0]
-		o.Class, o.Problem = "gcs/query-writes-shared-filter-state", fmt.Sprintf("a query method announced a write to %s", w.Path)
-		return o
+		o.Writes = len(e.Writes)
 	}
 	if len(e.Races) > 0 {
 		o.Class, o.Problem = "gcs/data-race", e.Races[0].Path
